@@ -495,6 +495,16 @@ func (g *gnet) attachHostile(victim int) *ghost {
 	go func() {
 		defer l.runs.Done()
 		_ = nv.st.comm.Protocols()[0].Run(p2p.NewPeer(discover.NodeID{0x60, byte(g.run), hostileIdx}, "hostile", nil), l.ea)
+		if !l.ea.Closed() {
+			// the node dropped the hostile peer (its protocol handler returned while the connection was up)
+			for i := 0; i < 400; i++ { // until runPeer has taken it out of the peer set
+				if f, _, _ := nv.st.comm.VerifPeerMarks(discover.NodeID{0x60, byte(g.run), hostileIdx}, nil, nil); !f {
+					break
+				}
+				time.Sleep(5 * time.Millisecond)
+			}
+			g.log(trace.Ev{"e": "Disconnect", "n": victim, "p": hostileIdx})
+		}
 		l.ea.Close()
 	}()
 	go func() {
